@@ -7,8 +7,8 @@
    PAR2 under the archive's self-consistency premise - the local MD5 collision-freeness premise, stated as
    "any content with a file's recorded hashes and length has that file's slice checksum list" - which is an
    explicit hypothesis of the theorem; for PAR1 it is proved without such a premise (Proofs/Par1Clean.v). *)
-From Gopar Require Import Model.Base Model.CRC Model.GoPath Model.FS Model.Par2 Model.Par1 Model.History
-     Proofs.Par2Facts Proofs.Par1Facts Proofs.HistoryFacts Proofs.Par2Clean Proofs.Par2Converge Proofs.Par1Clean Proofs.Par2Converge2.
+From Gopar Require Import Model.Base Model.CRC Model.GoPath Model.FS Model.Par2 Model.Par1 Model.History 
+     Proofs.Par2Facts Proofs.Par1Facts Proofs.HistoryFacts Proofs.Par2Clean Proofs.Par2Converge Proofs.Par1Clean Proofs.Par2Converge2 Proofs.HistoryFacts2.
 Open Scope N_scope.
 
 (* Verify never changes the state; a history of Verifies is the identity *)
@@ -110,3 +110,42 @@ Theorem C14_par1_idle_on_clean : forall md5 ix dbl fs s st1 r rp st',
   par1_repair md5 ix dbl (io_init fs []) = ((r, rp), st') -> rp = [] /\ io_fs st' = fs.
 Proof. exact par1_idle_on_clean. Qed.
 Print Assumptions C14_par1_idle_on_clean.
+
+(* HISTORIES, STRONG FORM: after ANY history of Verify / Repair / external changes (none of the external changes
+   touching q itself), the content at q is either what it was at the start or content d that matched the
+   records loaded IN A STATE THE HISTORY ACTUALLY PASSED THROUGH (the state after a prefix h1 of the history) -
+   not merely "in some state".  HF2Example.hist2_witness instantiates it on a history in which a Repair
+   restores a damaged file, so that the left disjunct is false and the right one carries the content. *)
+Theorem C14_history2_monotone_strong : forall md5 ix h fs q,
+  (forall o, In o h -> match o with HSet p _ => p <> q | HDelete p => p <> q | _ => True end) ->
+  fs_lookup (hrun2 md5 ix h fs) q = fs_lookup fs q \/
+  exists d fs', fs_lookup (hrun2 md5 ix h fs) q = Some d /\ matches2 md5 ix fs' q d /\
+    exists h1 h2, h = h1 ++ h2 /\ fs' = hrun2 md5 ix h1 fs.
+Proof. exact history2_monotone_strong. Qed.
+Print Assumptions C14_history2_monotone_strong.
+
+Theorem C14_history1_monotone_strong : forall md5 ix h fs q,
+  (forall o, In o h -> match o with HSet p _ => p <> q | HDelete p => p <> q | _ => True end) ->
+  fs_lookup (hrun1 md5 ix h fs) q = fs_lookup fs q \/
+  exists d fs', fs_lookup (hrun1 md5 ix h fs) q = Some d /\ matches1 md5 ix fs' q d /\
+    exists h1 h2, h = h1 ++ h2 /\ fs' = hrun1 md5 ix h1 fs.
+Proof. exact history1_monotone_strong. Qed.
+Print Assumptions C14_history1_monotone_strong.
+
+(* ... and when every Repair of the history ran with the same index bytes b, the content at q is the initial
+   one or content with the MD5, 16k-MD5 and length that b records for q: against ONE fixed archive *)
+Theorem C14_history2_fixed_index : forall md5 ix h fs q b,
+  (forall o, In o h -> match o with HSet p _ => p <> q | HDelete p => p <> q | _ => True end) ->
+  (forall h1 dbl h2, h = h1 ++ HRepair dbl :: h2 -> fs_lookup (hrun2 md5 ix h1 fs) ix = Some b) ->
+  fs_lookup (hrun2 md5 ix h fs) q = fs_lookup fs q \/
+  exists d, fs_lookup (hrun2 md5 ix h fs) q = Some d /\ index_records md5 ix b q d.
+Proof. exact history2_fixed_index. Qed.
+Print Assumptions C14_history2_fixed_index.
+
+Theorem C14_history1_fixed_index : forall md5 ix h fs q b,
+  (forall o, In o h -> match o with HSet p _ => p <> q | HDelete p => p <> q | _ => True end) ->
+  (forall h1 dbl h2, h = h1 ++ HRepair dbl :: h2 -> fs_lookup (hrun1 md5 ix h1 fs) ix = Some b) ->
+  fs_lookup (hrun1 md5 ix h fs) q = fs_lookup fs q \/
+  exists d, fs_lookup (hrun1 md5 ix h fs) q = Some d /\ index_records1 md5 ix b q d.
+Proof. exact history1_fixed_index. Qed.
+Print Assumptions C14_history1_fixed_index.
